@@ -42,7 +42,8 @@ def cases(draw):
     need = max([w, 3] + [c.get("filter_size", 3) for n, c in steps if c.get("filter_method") in ("median", "median_for_intervals")])
     H = max(need, w + draw(st.integers(1, 6)))
     W = max(need + 1, w + draw(st.integers(3, 12)))
-    pair = draw(gen.image_pair(min_rows=H, max_rows=H, min_cols=W, max_cols=W, max_val=9, masks=True))
+    pair = draw(gen.image_pair(min_rows=H, max_rows=H, min_cols=W, max_cols=W, max_val=9, masks=True,
+                               conventions="per-image"))
     if draw(st.integers(0, 4)) == 0:
         # interval bands + median_for_intervals (with regularisation, which needs an ambiguity band)
         idx = [n for n, _ in steps].index("disparity")
@@ -138,7 +139,10 @@ def body(ctx: Ctx, p: dict) -> None:
     H, W = left.shape
     w = p["w"]
     h = w // 2
-    conv = dict(valid=p["pair"]["valid"], nodata=p["pair"]["nodata"])
+    conv = gen.conv_kwargs(p["pair"])
+    # the reference reads canonical masks (0 valid, 1 no-data, other invalid), whatever convention each dataset announces
+    mlc = gen._mask(p["pair"].get("mask_left"), H, W, 0, 1)
+    mrc = gen._mask(p["pair"].get("mask_right"), H, W, 0, 1)
     steps = p["pipeline"]
     names = [n for n, _ in steps]
     kinds = [n.split(".")[0] for n in names]
@@ -178,12 +182,12 @@ def body(ctx: Ctx, p: dict) -> None:
                 continue
             if kind == "matching_cost":
                 if side == "left":
-                    st_ = judge_matching_cost(ctx, side, rec["left_cvmask"], rec["left_allnan"], ml, mr, gmin, gmax, w,
-                                              conv["valid"], conv["nodata"], tag)
+                    st_ = judge_matching_cost(ctx, side, rec["left_cvmask"], rec["left_allnan"], mlc, mrc, gmin, gmax, w,
+                                              0, 1, tag)
                     stats = st_
                 else:
-                    judge_matching_cost(ctx, side, rec["right_cvmask"], rec["right_allnan"], mr, ml, -gmax, -gmin, w,
-                                        conv["valid"], conv["nodata"], tag)
+                    judge_matching_cost(ctx, side, rec["right_cvmask"], rec["right_allnan"], mrc, mlc, -gmax, -gmin, w,
+                                        0, 1, tag)
             if f"{side}_m" not in rec:
                 continue
             m, d = rec[f"{side}_m"].astype(int), rec[f"{side}_d"]
@@ -242,6 +246,8 @@ def body(ctx: Ctx, p: dict) -> None:
         classes.append("grid")
     if ml is not None or mr is not None:
         classes.append("mask")
+    if mr is not None and "valid_right" in p["pair"]:
+        classes.append("right-mask-own-convention")
     nt = bool(stats and stats["valid"] and stats["left-invalid"] and stats["right-invalid"] and h > 0)
     ctx.case(p, nontrivial=nt, classes=classes)
 
